@@ -209,29 +209,34 @@ func (p *prog) eval(in string) (out string, panicked string) {
 func q(s string) string { return `"` + s + `"` }
 
 type zoneProgs struct {
-	z       *zone
-	tf      []*prog    // per namedFormats index
-	tfDef   *prog      // format omitted / empty
-	tp      [][2]*prog // per namedFormats index: [tz given, tz omitted]; nil unless roundTrip
-	bt      []*prog    // per bucketNames
-	ta      []*prog    // per attrs
-	garbage []garbageProg
+	z     *zone
+	tf    []*prog    // per namedFormats index
+	tfDef *prog      // format omitted / empty
+	tp    [][2]*prog // per namedFormats index: [tz given, tz omitted]; nil unless roundTrip
+	bt    []*prog    // per bucketNames
+	ta    []*prog    // per attrs
 }
 
 var attrs = []string{"weekday", "week", "yearweek", "quarter"}
 
 type garbageProg struct {
 	helper string
-	p      *prog
+	tmpl   string
+	good   string // a parseable input, evaluated before every unparseable one
 	inputs []string
 }
 
+func tzArg(z *zone) string {
+	if z.arg != "" {
+		return " " + q(z.arg)
+	}
+	return ""
+}
+
+// buildProgs compiles, from scratch, every per-instant template of a zone.
 func buildProgs(z *zone) *zoneProgs {
 	zp := &zoneProgs{z: z}
-	tz := ""
-	if z.arg != "" {
-		tz = " " + q(z.arg)
-	}
+	tz := tzArg(z)
 	for _, nf := range namedFormats {
 		zp.tf = append(zp.tf, compile("{timeformat {0} "+nf.name+tz+"}"))
 		var pair [2]*prog
@@ -252,19 +257,26 @@ func buildProgs(z *zone) *zoneProgs {
 	for _, a := range attrs {
 		zp.ta = append(zp.ta, compile("{timeattr {0} "+a+tz+"}"))
 	}
-	// unparseable input
+	return zp
+}
+
+// garbageProgs: unparseable inputs per helper. Each template is compiled once
+// and fed good, bad, good, bad, ... so that an answer remembered from the
+// previous evaluation cannot pass for the bad input.
+func garbageProgs(z *zone) []garbageProg {
+	var out []garbageProg
+	tz := tzArg(z)
+	const goodUnix = "1583107199" // 2020-03-01T23:59:59Z
 	notNumbers := []string{"", "x", "abc", "12x", "x12", "1 2", "--1", "1-", "é", "2020-01-01", "\x00"}
-	zp.garbage = append(zp.garbage,
-		garbageProg{"timeformat", compile("{timeformat {0} RFC3339" + tz + "}"), notNumbers},
-		garbageProg{"timeformat", compile("{timeformat {0} DAY" + tz + "}"), notNumbers},
-		garbageProg{"timeattr", compile("{timeattr {0} quarter" + tz + "}"), notNumbers},
-		garbageProg{"timeattr", compile("{timeattr {0} yearweek" + tz + "}"), notNumbers},
+	out = append(out,
+		garbageProg{"timeformat", "{timeformat {0} RFC3339" + tz + "}", goodUnix, notNumbers},
+		garbageProg{"timeformat", "{timeformat {0} DAY" + tz + "}", goodUnix, notNumbers},
+		garbageProg{"timeattr", "{timeattr {0} quarter" + tz + "}", goodUnix, notNumbers},
+		garbageProg{"timeattr", "{timeattr {0} yearweek" + tz + "}", goodUnix, notNumbers},
 	)
-	base := calOf(1583020800+86399, 0, "UTC") // 2020-03-01T23:59:59Z
-	if off, abbr := z.at(1583020800 + 86399); true {
-		base = calOf(1583020800+86399, off, abbr)
-	}
-	for i, nf := range namedFormats {
+	off, abbr := z.at(1583107199)
+	base := calOf(1583107199, off, abbr)
+	for _, nf := range namedFormats {
 		if !nf.roundTrip {
 			continue
 		}
@@ -279,19 +291,19 @@ func buildProgs(z *zone) *zoneProgs {
 		if nf.name == "RFC3339" || nf.name == "RFC3339N" {
 			bad = append(bad, "2020-13-01T00:00:00Z", "2020-01-01T25:00:00Z", "2020-01-01 00:00:00", "2020-01-01T00:00:00")
 		}
-		zp.garbage = append(zp.garbage, garbageProg{"time/" + nf.name, zp.tp[i][0], bad})
+		out = append(out, garbageProg{"time/" + nf.name, "{time {0} " + nf.name + tz + "}", good, bad})
 	}
-	zp.garbage = append(zp.garbage,
-		garbageProg{"buckettime", compile("{buckettime {0} day RFC3339" + tz + "}"), []string{"", "x", "abc", "yesterday", "2020-02-30T00:00:00Z", "2020-13-01T00:00:00Z", "2020-01-01T00:00:00Zx", "12:00"}},
+	out = append(out,
+		garbageProg{"buckettime", "{buckettime {0} day RFC3339" + tz + "}", base.rfc3339(), []string{"", "x", "abc", "yesterday", "2020-02-30T00:00:00Z", "2020-13-01T00:00:00Z", "2020-01-01T00:00:00Zx", "12:00"}},
 	)
 	if z.label == "default" {
 		notDur := []string{"", "x", "abc", "h", "s", "1x", "1hh", "h1", "1h-", "--1h", "1 h", "1h 2m", "é", "5 s", "1d"}
-		zp.garbage = append(zp.garbage,
-			garbageProg{"duration", compile("{duration {0}}"), notDur},
-			garbageProg{"durationformat", compile("{durationformat {0}}"), []string{"", "x", "abc", "1h", "5s", "12x", "--1", "1 2", "é"}},
+		out = append(out,
+			garbageProg{"duration", "{duration {0}}", "1h1m1s", notDur},
+			garbageProg{"durationformat", "{durationformat {0}}", "3661", []string{"", "x", "abc", "1h", "5s", "12x", "--1", "1 2", "é"}},
 		)
 	}
-	return zp
+	return out
 }
 
 type Case struct {
@@ -302,6 +314,9 @@ type Case struct {
 	Prog  string `json:"template,omitempty"`
 	Input string `json:"input,omitempty"`
 	Local string `json:"reference_local_time,omitempty"`
+	// Sequence: what the same freshly compiled expressions were evaluated on
+	// before this case, in order (instants or seconds), this case last
+	Sequence []int64 `json:"sequence,omitempty"`
 }
 
 type reporter func(sig, detail string)
@@ -533,54 +548,121 @@ var configCases = []struct{ helper, tmpl string }{
 
 // ---- worker -----------------------------------------------------------------
 
+// Every helper keeps being evaluated through the SAME compiled expression over
+// a run of consecutive enumerated instants, first in increasing and then in
+// decreasing order, so that anything a compiled stage remembers between
+// evaluations shows. The sharding unit is a block of consecutive instants
+// (with 4 instants of overlap into the previous block, so that every window of
+// 5 consecutive instants - the +-2 s neighbourhoods - lies inside one block);
+// the expressions are compiled from scratch for every block, which makes a
+// recorded case (its sequence) exactly replayable.
+const (
+	blockLen     = 28
+	blockOverlap = 4
+)
+
+// visitOrder: the block forwards, then backwards.
+func visitOrder(blk []int64) []int64 {
+	order := append([]int64{}, blk...)
+	for i := len(blk) - 2; i >= 0; i-- {
+		order = append(order, blk[i])
+	}
+	return order
+}
+
+func blocks(n int, f func(lo, start, hi int) bool) {
+	for start := 0; start < n; start += blockLen {
+		lo, hi := start-blockOverlap, start+blockLen
+		if lo < 0 {
+			lo = 0
+		}
+		if hi > n {
+			hi = n
+		}
+		if !f(lo, start, hi) {
+			return
+		}
+	}
+}
+
 func worker(w *runner.W) {
 	setGlobals()
 	var caseNo int64
-	var cur Case
-	w.SetCase(func() any { return cur })
-	rep := func(sig, detail string) { w.Violation(sig, detail, cur) }
+	var cur func() Case
+	w.SetCase(func() any {
+		if cur == nil {
+			return nil
+		}
+		return cur()
+	})
+	rep := func(sig, detail string) {
+		c := cur()
+		if n := len(c.Sequence); n >= 2 {
+			detail += fmt.Sprintf("\nsame compiled expression; evaluation %d of its block, the previous one was on %d (replay runs the whole sequence)", n, c.Sequence[n-2])
+		}
+		w.Violation(sig, detail, c)
+	}
+	perInstant := int64(len(namedFormats) + 1 + len(bucketNames) + len(attrs) + 12)
 
 	for _, z := range zonesFor(w.Quick()) {
 		setGlobals()
-		zp := buildProgs(z)
-		for _, p := range allProgs(zp) {
+		for _, p := range allProgs(buildProgs(z)) {
 			if p.cpanic != "" || p.cerr != "" {
-				cur = Case{Kind: "config", Zone: z.label, Prog: p.tmpl}
-				w.Violation("C18/compile/rejected-template", fmt.Sprintf("template %s did not compile: %s %s", p.tmpl, p.cerr, p.cpanic), cur)
+				c := Case{Kind: "config", Zone: z.label, Prog: p.tmpl}
+				w.Violation("C18/compile/rejected-template", fmt.Sprintf("template %s did not compile: %s %s", p.tmpl, p.cerr, p.cpanic), c)
 			}
 		}
 		ins := z.instants(w.Quick())
-		for _, u := range ins {
+		stop := false
+		blocks(len(ins), func(lo, start, hi int) bool {
+			caseNo++
+			if !w.Owns(caseNo) {
+				return true
+			}
+			if w.Expired() {
+				stop = true
+				return false
+			}
+			setGlobals()
+			zp := buildProgs(z)
+			order := visitOrder(ins[lo:hi])
+			for i, u := range order {
+				i, u := i, u
+				cur = func() Case {
+					return Case{Kind: "instant", Zone: z.label, Unix: u, Sequence: append([]int64{}, order[:i+1]...)}
+				}
+				nt, digest := zp.checkInstant(u, rep)
+				w.Eval(nt)
+				w.Add("template_evaluations", perInstant)
+				if i < hi-lo && lo+i >= start { // first visit of an instant of this block
+					w.Add("instants", 1)
+					w.Outcome(z.label, digest)
+					if w.WantSample() && nt && u%977 == 0 {
+						off, abbr := z.at(u)
+						w.Sample(Case{Kind: "instant", Zone: z.label, Unix: u, Local: calOf(u, off, abbr).rfc3339()})
+					}
+				} else {
+					w.Add("revisits_same_compiled_expression_other_neighbour", 1)
+				}
+			}
+			w.Add("blocks_of_consecutive_instants", 1)
+			return true
+		})
+		if stop {
+			return
+		}
+		// unparseable input
+		for _, g := range garbageProgs(z) {
 			caseNo++
 			if !w.Owns(caseNo) {
 				continue
 			}
-			if caseNo%4096 < int64(w.N) && w.Expired() {
-				return
-			}
-			cur = Case{Kind: "instant", Zone: z.label, Unix: u}
-			nt, digest := zp.checkInstant(u, rep)
-			w.Eval(nt)
-			w.Add("instants", 1)
-			w.Add("template_evaluations", int64(len(namedFormats)+1+len(bucketNames)+len(attrs)+12))
-			w.Outcome(z.label, digest)
-			if w.WantSample() && nt && u%977 == 0 {
-				off, abbr := z.at(u)
-				w.Sample(Case{Kind: "instant", Zone: z.label, Unix: u, Local: calOf(u, off, abbr).rfc3339()})
-			}
-		}
-		// unparseable input
-		for _, g := range zp.garbage {
-			for _, in := range g.inputs {
-				caseNo++
-				if !w.Owns(caseNo) {
-					continue
-				}
-				cur = Case{Kind: "garbage", Zone: z.label, Prog: g.p.tmpl, Input: in}
-				checkGarbage(g.helper, g.p, in, rep)
-				w.Eval(true)
-				w.Add("garbage_cases", 1)
-			}
+			g := g
+			checkGarbage(z, g, func(in string) {
+				cur = func() Case { return Case{Kind: "garbage", Zone: z.label, Prog: g.tmpl, Input: in} }
+			}, rep)
+			w.Eval(true)
+			w.Add("garbage_inputs", int64(len(g.inputs)))
 		}
 	}
 	for _, cc := range configCases {
@@ -588,26 +670,35 @@ func worker(w *runner.W) {
 		if !w.Owns(caseNo) {
 			continue
 		}
-		cur = Case{Kind: "config", Prog: cc.tmpl, Input: "1583020800"}
+		cc := cc
+		cur = func() Case { return Case{Kind: "config", Prog: cc.tmpl, Input: "1583020800"} }
 		checkConfig(cc.helper, cc.tmpl, rep)
 		w.Eval(true)
-		w.Add("garbage_cases", 1)
+		w.Add("garbage_inputs", 1)
 	}
-	dp := buildDurProgs()
-	for _, n := range durationValues(w.Quick()) {
+	vals := durationValues(w.Quick())
+	blocks(len(vals), func(lo, start, hi int) bool {
 		caseNo++
 		if !w.Owns(caseNo) {
-			continue
+			return true
 		}
-		if caseNo%4096 < int64(w.N) && w.Expired() {
-			return
+		if w.Expired() {
+			return false
 		}
-		cur = Case{Kind: "duration", Secs: n}
-		nt, digest := dp.checkDuration(n, rep)
-		w.Eval(nt)
-		w.Add("durations", 1)
-		w.Outcome("duration", digest)
-	}
+		dp := buildDurProgs()
+		order := visitOrder(vals[lo:hi])
+		for i, n := range order {
+			i, n := i, n
+			cur = func() Case { return Case{Kind: "duration", Secs: n, Sequence: append([]int64{}, order[:i+1]...)} }
+			nt, digest := dp.checkDuration(n, rep)
+			w.Eval(nt)
+			if i < hi-lo && lo+i >= start {
+				w.Add("durations", 1)
+				w.Outcome("duration", digest)
+			}
+		}
+		return true
+	})
 }
 
 func allProgs(zp *zoneProgs) []*prog {
@@ -624,15 +715,29 @@ func allProgs(zp *zoneProgs) []*prog {
 	return out
 }
 
-// checkGarbage: "unparseable input yields the error marker"
-func checkGarbage(helper string, p *prog, in string, rep reporter) {
-	out, pn := p.eval(in)
-	if pn != "" {
-		rep("C18/panic/"+helper+"/"+panicClass(pn), fmt.Sprintf("%s on input %q panicked: %s", p.tmpl, in, pn))
-		return
-	}
-	if !isErrorMarker(out) {
-		rep("C18/garbage/"+helper+"/no-error-marker", fmt.Sprintf("%s on unparseable input %q returned %q instead of an error marker", p.tmpl, in, out))
+// checkGarbage: "unparseable input yields the error marker". One compiled
+// expression is fed good, bad, good, bad, ...
+func checkGarbage(z *zone, g garbageProg, at func(in string), rep reporter) {
+	p := compile(g.tmpl)
+	for _, in := range g.inputs {
+		at(g.good)
+		out, pn := p.eval(g.good)
+		if pn != "" {
+			rep("C18/panic/"+g.helper+"/"+panicClass(pn), fmt.Sprintf("%s on input %q panicked: %s", p.tmpl, g.good, pn))
+			return
+		}
+		if isErrorMarker(out) {
+			rep("C18/sequence/"+g.helper+"/good-input-rejected-after-bad", fmt.Sprintf("%s (zone %s) on the parseable input %q returned %q (evaluated in turns with unparseable inputs)", p.tmpl, z.label, g.good, out))
+		}
+		at(in)
+		out, pn = p.eval(in)
+		if pn != "" {
+			rep("C18/panic/"+g.helper+"/"+panicClass(pn), fmt.Sprintf("%s on input %q panicked: %s", p.tmpl, in, pn))
+			return
+		}
+		if !isErrorMarker(out) {
+			rep("C18/garbage/"+g.helper+"/no-error-marker", fmt.Sprintf("%s on unparseable input %q returned %q instead of an error marker (previous input: %q)", p.tmpl, in, out, g.good))
+		}
 	}
 }
 
@@ -654,24 +759,39 @@ func replay(w *runner.W, raw json.RawMessage) {
 		panic(err)
 	}
 	setGlobals()
-	rep := func(sig, detail string) { w.Violation(sig, detail, c) }
+	cur := c
+	rep := func(sig, detail string) { w.Violation(sig, detail, cur) }
 	switch c.Kind {
 	case "instant":
+		seq := c.Sequence
+		if len(seq) == 0 {
+			seq = []int64{c.Unix}
+		}
 		for _, z := range zonesFor(false) {
 			if z.label == c.Zone {
-				buildProgs(z).checkInstant(c.Unix, rep)
+				zp := buildProgs(z)
+				for _, u := range seq {
+					zp.checkInstant(u, rep)
+				}
 			}
 		}
 	case "duration":
-		buildDurProgs().checkDuration(c.Secs, rep)
+		seq := c.Sequence
+		if len(seq) == 0 {
+			seq = []int64{c.Secs}
+		}
+		dp := buildDurProgs()
+		for _, n := range seq {
+			dp.checkDuration(n, rep)
+		}
 	case "garbage":
 		for _, z := range zonesFor(false) {
 			if z.label != c.Zone {
 				continue
 			}
-			for _, g := range buildProgs(z).garbage {
-				if g.p.tmpl == c.Prog {
-					checkGarbage(g.helper, g.p, c.Input, rep)
+			for _, g := range garbageProgs(z) {
+				if g.tmpl == c.Prog {
+					checkGarbage(z, g, func(string) {}, rep)
 					return
 				}
 			}
@@ -699,7 +819,7 @@ func main() {
 			if tier == "thorough" {
 				more = ", Europe/London, Pacific/Auckland, Asia/Kathmandu, Pacific/Apia, America/Sao_Paulo"
 			}
-			return "zones {tz omitted, utc, Etc/GMT+5, America/New_York, Europe/Berlin, Australia/Lord_Howe, Asia/Kolkata, local(=America/St_Johns via time.Local)" + more + "} from the embedded time/tzdata x unix seconds in [1970-01-01, 2100-12-31]: " + days + " at local 00:00:00, 12:00:00, 23:59:59; +-2 s around every local month start (so every quarter and year start), " + weeks + " (Monday 00:00 local) and every change of the zone's offset/abbreviation (found by bisection over every day) x {timeformat in all 23 named formats + default; time round trip of the printed text for RUBY, RFC822Z, RFC1123Z, RFC3339, RFC3339N, NGINX with and without tz; buckettime for 23 spellings of the 7 buckets; timeattr weekday, week, yearweek, quarter}; one case = one (zone, second) with ~75 template evaluations through BuildKey. Plus durationformat/duration on whole seconds " + dur + " and a sweep to +-9223372036 (5 spellings each), and lists of unparseable inputs/arguments per helper. non-trivial = no helper returned an error marker or panicked for the (zone, second) or duration case; an unparseable-input case counts when the helper was reached and answered"
+			return "zones {tz omitted, utc, Etc/GMT+5, America/New_York, Europe/Berlin, Australia/Lord_Howe, Asia/Kolkata, local(=America/St_Johns via time.Local)" + more + "} from the embedded time/tzdata x unix seconds in [1970-01-01, 2100-12-31]: " + days + " at local 00:00:00, 12:00:00, 23:59:59; +-2 s around every local month start (so every quarter and year start), " + weeks + " (Monday 00:00 local) and every change of the zone's offset/abbreviation (found by bisection over every day) x {timeformat in all 23 named formats + default; time round trip of the printed text for RUBY, RFC822Z, RFC1123Z, RFC3339, RFC3339N, NGINX with and without tz; buckettime for 23 spellings of the 7 buckets; timeattr weekday, week, yearweek, quarter}; one (zone, second) = ~75 template evaluations through BuildKey. Order of evaluation: the instants of a zone are cut into blocks of 28 consecutive enumerated instants (+4 of overlap, so every +-2 s neighbourhood lies inside a block); for every block all templates are compiled from scratch and the SAME compiled expressions are evaluated on the block in increasing and then in decreasing order (every instant is checked after its predecessor and after its successor), one case = one evaluation of an instant in such a sequence; durations likewise in blocks of consecutive values, both orders; each unparseable input is evaluated right after a parseable one on the same compiled expression. Plus durationformat/duration on whole seconds " + dur + " and a sweep to +-9223372036 (5 spellings each), and lists of unparseable inputs/arguments per helper. non-trivial = no helper returned an error marker or panicked for the (zone, second) or duration case; an unparseable-input case counts when the helper was reached and answered"
 		},
 		Assumptions: func(string) []string {
 			return []string{
